@@ -438,6 +438,7 @@ func (r *arRun) checkReceive(send *nom.AccountBlock, res *vm.ContractExecution, 
 			if arKeepsAmountWithoutEffect(label) {
 				c.Hit("applied-amount-without-storage-write (donation)")
 			} else {
+				verdict = "violation" // (the Lean judge of the ar-recv line says the same: Driver/Abi.lean pureArRecv)
 				r.fail("C09: accepted call with amount %s %s was answered with status 1 (applied) but the receive wrote nothing into the storage of the %s contract and sent nothing: neither applied nor refunded, the sender lost the amount: %s",
 					amt(send.Amount), tokName(send.TokenStandard), arContractName(send.ToAddress), r.describeSend(send))
 			}
